@@ -1,4 +1,5 @@
 import Hostd.Lemmas.ChainAlg
+import Hostd.Lemmas.ChainProj
 import Hostd.Props.C06
 /-!
 C01 — Contract chain state is a function of the best chain.
@@ -276,6 +277,87 @@ theorem C01_rejected_becomes_active (c : Contract) (h r : Nat) (hs : c.status = 
   rcases hs with hs | hs <;> simp only at hs <;> subst hs <;> cases ver <;>
     simp [evApply, fireC, codeTable, colBool]
 
+/-! ### the store model: every contract of the global state follows the per-contract semantics -/
+
+/-- chain operations of the store model (`Model/Chain.lean`, what the driver executes) -/
+inductive GOp where
+  | apply (h : Nat) (ch : Changes)
+  | revert (h : Nat) (ch : Changes)
+
+def stepG (rb : Nat) (s : State) : GOp → Except Fault State
+  | .apply h ch => applyBlock codeTable rb h ch s
+  | .revert h ch => revertContracts codeTable h ch s
+
+def runG (rb : Nat) : State → List GOp → Except Fault State
+  | s, [] => .ok s
+  | s, op :: ops => do
+      let s1 ← stepG rb s op
+      runG rb s1 ops
+
+/-- what a global operation is for contract `(v,i)` -/
+def projOp (v : Ver) (i : Nat) : GOp → HOp
+  | .apply h ch => .apply h (eventFor false v i ch)
+  | .revert h ch => .revert h (eventFor true v i ch)
+
+/-- consensus touches a contract at most once per block -/
+def opNodup : GOp → Prop
+  | .apply _ ch => (ids1 ch).Nodup ∧ (ids2 ch).Nodup
+  | .revert _ ch => (ids1 ch).Nodup ∧ (ids2 ch).Nodup
+
+/-- **Projection theorem.**  Whenever the store model processes a history of blocks (each touching a
+contract at most once), every stored contract's row is exactly the result of the per-contract
+semantics (`runH`) on that contract's projected history.  This is what makes the per-contract
+theorems (`C01_best_chain`, …) statements about the executed store model. -/
+theorem C01_global_projection (rb : Nat) (ops : List GOp) :
+    ∀ (s s' : State), KeysNodup s.cs → (∀ op ∈ ops, opNodup op) → runG rb s ops = .ok s' →
+      ∀ v i c, findC v i s.cs = some c →
+        ∃ c', runH rb c (ops.map (projOp v i)) = .ok c' ∧ findC v i s'.cs = some c' := by
+  induction ops with
+  | nil =>
+    intro s s' _ _ hrun v i c hfind
+    simp [runG] at hrun; cases hrun
+    exact ⟨c, rfl, hfind⟩
+  | cons op rest ih =>
+    intro s s' hk hnd hrun v i c hfind
+    simp only [runG, bind, Except.bind] at hrun
+    split at hrun
+    · cases hrun
+    · rename_i s1 hs1
+      have hop := hnd op List.mem_cons_self
+      have hkeys : s1.cs.map keyOf = s.cs.map keyOf := by
+        cases op with
+        | apply h ch => exact applyBlock_keeps codeTable rb h ch s s1 hs1
+        | revert h ch => exact revertContracts_keeps codeTable h ch s s1 hs1
+      have hk1 : KeysNodup s1.cs := by unfold KeysNodup; rw [hkeys]; exact hk
+      have hlook : findC v i s1.cs = optApply (fun c => stepH codeTable rb c (projOp v i op)) (findC v i s.cs) := by
+        cases op with
+        | apply h ch => exact applyBlock_lookup hop.1 hop.2 hk hs1 v i
+        | revert h ch => exact revertBlock_lookup hop.1 hop.2 hs1 v i
+      have hsome : (findC v i s1.cs).isSome = true := by
+        rw [findC_isSome_iff, hkeys, ← findC_isSome_iff, hfind]; rfl
+      rw [hfind] at hlook
+      simp only [optApply] at hlook
+      cases hstep : stepH codeTable rb c (projOp v i op) with
+      | error e => rw [hstep] at hlook; rw [hlook] at hsome; cases hsome
+      | ok c1 =>
+        rw [hstep] at hlook
+        obtain ⟨c', hrun', hfind'⟩ := ih s1 s' hk1 (fun o ho => hnd o (List.mem_cons_of_mem _ ho)) hrun v i c1 hlook
+        exact ⟨c', by simp [runH, bind, Except.bind, hstep, hrun'], hfind'⟩
+
+/-- **C01 for the store model.**  After the store model has processed any history of block
+connections and disconnections, every contract stored (fresh) before the history whose projected
+history is well-formed reports exactly the chain view of the best chain. -/
+theorem C01_global_best_chain (rb : Nat) (ops : List GOp) (s s' : State) (hk : KeysNodup s.cs)
+    (hnd : ∀ op ∈ ops, opNodup op) (hrun : runG rb s ops = .ok s')
+    (v : Ver) (i : Nat) (c0 : Contract) (hfind : findC v i s.cs = some c0) (hf : Fresh c0)
+    (hwf : WFops c0 [] (ops.map (projOp v i))) :
+    ∃ c X, findC v i s'.cs = some c ∧ specTop c0 (finalStk [] (ops.map (projOp v i))) = .ok X ∧
+      Good X ∧ viewOf c = viewOf X := by
+  obtain ⟨c', hrunH, hfind'⟩ := C01_global_projection rb ops s s' hk hnd hrun v i c0 hfind
+  obtain ⟨c'', X, hrun'', hspec, hg, hn⟩ := C01_best_chain_fresh rb hf (ops.map (projOp v i)) hwf
+  rw [hrunH] at hrun''; cases hrun''
+  exact ⟨c', X, hfind', hspec, hg, C01_view hn⟩
+
 /-! ### non-vacuity: a concrete reorg history meets the hypotheses -/
 
 def ex0 : Contract := { id := 1, ver := .v2, neg := 0, wStart := 6, wEnd := 9, rev := 3 }
@@ -288,5 +370,22 @@ example : WFops ex0 [] exHist := by
   simp [WFops, exHist, wfStep, nextStk, specTop, ex0, evApply, fireC, codeTable, evValid, colBool, colOpt,
     bind, Except.bind, pure, Except.pure]
 example : (runH 1 ex0 exHist).toOption.map (·.status) = some .renewed := by decide
+
+
+/-- a store with a v1 and a v2 contract and a reorg across both formations -/
+def exS : State := { cs := [{ id := 1, ver := .v1, confRev := some 0, rev := 2, wStart := 9, wEnd := 12 }, ex0] }
+def exG : List GOp :=
+  [.apply 1 { form1 := [1], form2 := [(1, 1)] }, .apply 2 { rev1 := [(1, 2)] },
+   .revert 2 { rev1 := [(1, 0)] }, .revert 1 { form1 := [1], form2 := [(1, 1)] }, .apply 1 { form2 := [(1, 3)] }]
+
+example : KeysNodup exS.cs := by simp [KeysNodup, exS, ex0, keyOf]
+example : ∀ op ∈ exG, opNodup op := by
+  intro op hop
+  simp only [exG, List.mem_cons, List.mem_nil_iff, or_false] at hop
+  rcases hop with rfl | rfl | rfl | rfl | rfl <;> simp [opNodup, ids1, ids2]
+example : (runG 1 exS exG).toOption.map (fun s => s.cs.map (·.status)) = some [.pending, .active] := by decide
+example : WFops ex0 [] (exG.map (projOp .v2 1)) := by
+  simp [WFops, exG, projOp, eventFor, wfStep, nextStk, specTop, ex0, evApply, fireC, codeTable, evValid, colBool, colOpt,
+    bind, Except.bind, pure, Except.pure]
 
 end Hostd.Chain
